@@ -19,7 +19,38 @@ import (
 // Aggregates (StructV, ArrayV, StrV) are immutable: stores rebuild the spine.
 type Value interface{}
 
-type StrV struct{ B []*sym.Term }
+// StrV is a string: either concrete (Conc, C) or a vector of symbolic bytes (B).
+type StrV struct {
+	B    []*sym.Term
+	C    string
+	Conc bool
+}
+
+func (s StrV) Len() int {
+	if s.Conc {
+		return len(s.C)
+	}
+	return len(s.B)
+}
+
+// sb materialises the byte terms of a string.
+func (m *Machine) sb(s StrV) []*sym.Term {
+	if !s.Conc {
+		return s.B
+	}
+	b := make([]*sym.Term, len(s.C))
+	for i := 0; i < len(s.C); i++ {
+		b[i] = m.S.Const(8, uint64(s.C[i]))
+	}
+	return b
+}
+
+func (m *Machine) strAt(s StrV, i int) *sym.Term {
+	if s.Conc {
+		return m.S.Const(8, uint64(s.C[i]))
+	}
+	return s.B[i]
+}
 type StructV []Value
 type ArrayV []Value
 type TupleV []Value
@@ -62,12 +93,18 @@ type IfaceV struct {
 }
 
 type FuncV struct {
-	Fn  *ssa.Function
-	Env []Value
-	B   *ssa.Builtin
+	Fn     *ssa.Function
+	Env    []Value
+	B      *ssa.Builtin
+	Native *NativeFn // engine-implemented closure (used by stubs such as iter.Pull)
 }
 
-func (f FuncV) IsNil() bool { return f.Fn == nil && f.B == nil }
+type NativeFn struct {
+	Name string
+	F    func(m *Machine, caller *frame, args []Value) Value
+}
+
+func (f FuncV) IsNil() bool { return f.Fn == nil && f.B == nil && f.Native == nil }
 
 type ChanObj struct {
 	ID     int
@@ -317,32 +354,43 @@ func ptrEq(a, b PtrV) bool {
 }
 
 func (m *Machine) strEq(a, b StrV) *sym.Term {
-	if len(a.B) != len(b.B) {
+	if a.Len() != b.Len() {
 		return m.S.False()
 	}
+	if a.Conc && b.Conc {
+		return m.S.Bool(a.C == b.C)
+	}
+	ab, bb := m.sb(a), m.sb(b)
 	r := m.S.True()
-	for i := range a.B {
-		r = m.S.And(r, m.S.Eq(a.B[i], b.B[i]))
+	for i := range ab {
+		r = m.S.And(r, m.S.Eq(ab[i], bb[i]))
 	}
 	return r
 }
 
 // strLess: lexicographic a < b
 func (m *Machine) strLess(a, b StrV) *sym.Term {
-	n := len(a.B)
-	if len(b.B) < n {
-		n = len(b.B)
+	if a.Conc && b.Conc {
+		return m.S.Bool(a.C < b.C)
 	}
-	r := m.S.Bool(len(a.B) < len(b.B))
+	ab, bb := m.sb(a), m.sb(b)
+	n := len(ab)
+	if len(bb) < n {
+		n = len(bb)
+	}
+	r := m.S.Bool(len(ab) < len(bb))
 	for i := n - 1; i >= 0; i-- {
-		lt := m.S.Cmp("bvult", a.B[i], b.B[i])
-		eq := m.S.Eq(a.B[i], b.B[i])
+		lt := m.S.Cmp("bvult", ab[i], bb[i])
+		eq := m.S.Eq(ab[i], bb[i])
 		r = m.S.Or(lt, m.S.And(eq, r))
 	}
 	return r
 }
 
 func (m *Machine) ConcreteStr(s StrV) (string, bool) {
+	if s.Conc {
+		return s.C, true
+	}
 	var sb strings.Builder
 	for _, b := range s.B {
 		if !b.IsConst() {
@@ -353,13 +401,7 @@ func (m *Machine) ConcreteStr(s StrV) (string, bool) {
 	return sb.String(), true
 }
 
-func (m *Machine) MkStr(s string) StrV {
-	b := make([]*sym.Term, len(s))
-	for i := 0; i < len(s); i++ {
-		b[i] = m.S.Const(8, uint64(s[i]))
-	}
-	return StrV{b}
-}
+func (m *Machine) MkStr(s string) StrV { return StrV{C: s, Conc: true} }
 
 // Describe renders a value for diagnostics and evidence samples.
 func Describe(v Value) string {
@@ -378,6 +420,9 @@ func describe(v Value, d int) string {
 	case FloatV:
 		return fmt.Sprint(float64(x))
 	case StrV:
+		if x.Conc {
+			return strconvQuote(x.C)
+		}
 		var sb strings.Builder
 		sb.WriteByte('"')
 		for _, b := range x.B {
@@ -448,4 +493,11 @@ func describe(v Value, d int) string {
 		return "chan"
 	}
 	return fmt.Sprintf("%T", v)
+}
+
+func strconvQuote(s string) string {
+	if len(s) > 60 {
+		s = s[:60] + "…"
+	}
+	return fmt.Sprintf("%q", s)
 }
